@@ -53,6 +53,17 @@ def _watched(mod, case, limit):
     signal.setitimer(signal.ITIMER_VIRTUAL, limit)  # CPU seconds of this process: immune to machine load
     try:
         return mod.run_case(case)
+    except (MemoryError, CaseTimeout) as exc:
+        # a runaway loop/allocation inside the library that surfaced outside the property's own handlers
+        import gc
+
+        from hxv.lib import Result, Violation, exc_site
+
+        signal.setitimer(signal.ITIMER_VIRTUAL, 0)
+        site = exc_site(exc)
+        del exc
+        gc.collect()
+        return Result([Violation("hangs-or-runs-away", "watchdog", f"runaway computation or allocation (last library frame {site})")], False, [])
     finally:
         signal.setitimer(signal.ITIMER_VIRTUAL, 0)
 
